@@ -41,7 +41,7 @@ import re
 from dataclasses import dataclass, field
 from typing import Any, Callable
 
-from ..engine.normalize import ANCHOR_NAMES, _bind, _helper_target, _simple_helper, inline_helpers
+from ..engine.normalize import ANCHOR_NAMES, _bind, _helper_target, _simple_helper, _suite_lists, inline_helpers
 from ..engine.report import AnalysisError
 from ..engine.resolver import FuncInfo, FuncNode, Program
 from ..engine.sympath import Path, SymUnsupported, _Subst, sym_block, sym_paths
@@ -94,7 +94,79 @@ def prepared(prog: Program, fn: FuncInfo) -> FuncNode:
     node = inline_straightline(prog, fn, inline_helpers(prog, fn))
     if hoist_block_helpers(prog, fn, node):
         node = inline_straightline(prog, fn, inline_helpers(prog, fn, node=node))
+    fold_list_loops(node)
     return node
+
+
+def fold_list_loops(node: FuncNode) -> None:
+    """`a = []; for T in IT: …; a.append(X)` is read as `a = [X for T in IT if <the pass appends>]`: the
+    comprehension is bound to `a` right after the loop (the loop itself stays, it may do other things).
+
+    Done for a list that is initialised empty earlier in the same suite, is only touched by one
+    `.append(X)` per pass of the loop, and when the passes that append are exactly those satisfying a
+    conjunction of the loop body's conditions.  X has the loop body's locals substituted; a name the loop
+    carries from one iteration to the next (a threaded timestamp) stays free in X, i.e. the reading is
+    exact only for rules that do not look at such operands.  Works in place (analysis-only copy)."""
+    for suite in list(_suite_lists(node)):
+        i = 0
+        while i < len(suite):
+            st = suite[i]
+            i += 1
+            if not isinstance(st, ast.For) or st.orelse or getattr(st, "_lists_folded", False):
+                continue
+            st._lists_folded = True  # type: ignore[attr-defined]
+
+            def appends(c: ast.Call, a: str | None = None) -> bool:
+                return isinstance(c.func, ast.Attribute) and c.func.attr == "append" and isinstance(c.func.value, ast.Name) \
+                    and (a is None or c.func.value.id == a) and len(c.args) == 1 and not c.keywords
+            names = sorted({c.func.value.id for n in ast.walk(st) if isinstance(n, ast.Call) and appends(n)  # type: ignore[attr-defined]
+                            for c in [n]})
+            if not names:
+                continue
+            try:
+                passes = sym_block(st.body)
+            except SymUnsupported:
+                continue
+            if any(status not in ("next", "continue", "raise") for _p, status in passes):
+                continue
+            live = [p for p, status in passes if status != "raise" and p.exit != "raise"]
+            new: list[ast.stmt] = []
+            for a in names:
+                init = [j for j in range(i - 1) if isinstance(suite[j], (ast.Assign, ast.AnnAssign))
+                        and is_name(suite[j].targets[0] if isinstance(suite[j], ast.Assign) else suite[j].target, a)  # type: ignore[union-attr]
+                        and isinstance(suite[j].value, ast.List) and not suite[j].value.elts]  # type: ignore[union-attr]
+                uses = [n for n in ast.walk(st) if is_name(n, a)]
+                n_app = sum(1 for n in ast.walk(st) if isinstance(n, ast.Call) and appends(n, a))
+                if not init or a in _stored(st) or len(uses) != n_app:
+                    continue
+                if any(is_name(n, a) for k in range(init[-1] + 1, i - 1) for n in ast.walk(suite[k])):
+                    continue                                # touched between the initialisation and the loop
+                adding, skipping, vals = [], [], []
+                for p in live:
+                    hits = [c.node.args[0] for c in p.calls(lambda c: appends(c, a))]
+                    if len(hits) > 1:
+                        vals = []
+                        break
+                    (adding if hits else skipping).append(p)
+                    vals += hits
+                if not vals or len({u(v) for v in vals}) != 1 or any(is_name(n, a) for n in ast.walk(vals[0])):
+                    continue
+                # the conjunction of conditions every appending pass shares, and that each skipping pass breaks
+                common: dict[str, tuple[ast.AST, bool]] | None = None
+                for p in adding:
+                    mine = {u(t): (t, o) for _k, _ko, t, _ln, o in p.conds}
+                    common = mine if common is None else {k: v for k, v in common.items() if k in mine and mine[k][1] == v[1]}
+                common = common or {}
+                if not all(any(u(t) in common and common[u(t)][1] != o for _k, _ko, t, _ln, o in p.conds) for p in skipping):
+                    continue
+                ifs = [copy.deepcopy(t) if o else ast.UnaryOp(op=ast.Not(), operand=copy.deepcopy(t)) for t, o in common.values()]
+                comp = ast.ListComp(elt=copy.deepcopy(vals[0]), generators=[ast.comprehension(
+                    target=copy.deepcopy(st.target), iter=copy.deepcopy(st.iter), ifs=ifs, is_async=0)])
+                new.append(ast.copy_location(ast.Assign(targets=[ast.Name(id=a, ctx=ast.Store())], value=comp), st))
+            if new:
+                suite[i:i] = new
+                i += len(new)
+    ast.fix_missing_locations(node)
 
 
 def hoist_block_helpers(prog: Program, fn: FuncInfo, node: FuncNode) -> bool:
